@@ -14,6 +14,10 @@ facd <k> <F> <cfg>     -> as `fac`      (the factory value is dropped after k Pe
                                          future, k = 0: before its first poll; same function as `fac`)
 calld <k> <req>        -> as `call`     (the service value is dropped after k Pending polls of the call
                                          future; same answer as `call`, afterwards there is no current service)
+call2 fwd|rev|drop <r1> <r2> -> [events] r=<res1>,<res2> k=N   (call(r1), call(r2) now — the first stage
+                                         of each is invoked at call time, in call order — then the two
+                                         futures are driven in call order / the second first / the
+                                         first is dropped without being polled: `dropped,<res2>`)
 reset <id> <rp> ok|err -> ok            (leaf <id> of the current service starts a new readiness round:
                                          Pending^rp, then Ready(Ok)|Ready(Err) for ever)
 call <req>             -> [events] r=ok:V|err:E|stuck k=N | [events] r=panic
@@ -312,6 +316,28 @@ def step (st : State) (line : String) : State × String :=
     | _, _ => (st, "bad-op")
   | "fac" :: t => facStep st t
   | "facd" :: k :: t => if (num k).isSome then facStep st t else (st, "bad-op")
+  | ["call2", mode, r1, r2] =>
+    match st.svc, num r1, num r2 with
+    | some s, some r1, some r2 =>
+      -- both calls happen now, in call order (the first stage of each is invoked by `call`)
+      let (f1, l1) := call s r1
+      let (f2, l2) := call s r2
+      let next (r : Option Res) (w : Nat) : Nat := if r.isSome then w + 1 else w
+      let str (r : Option Res) : String := match r with | some r => resStr r | none => "stuck"
+      match mode with
+      | "fwd" =>
+        let (ra, la, wa) := drive fuel f1 st.w
+        let (rb, lb, wb) := drive fuel f2 (next ra wa)
+        ({ st with w := next rb wb }, render (l1 ++ l2 ++ la ++ lb) s!"{str ra},{str rb}")
+      | "rev" =>
+        let (rb, lb, wb) := drive fuel f2 st.w
+        let (ra, la, wa) := drive fuel f1 (next rb wb)
+        ({ st with w := next ra wa }, render (l1 ++ l2 ++ lb ++ la) s!"{str ra},{str rb}")
+      | "drop" =>
+        let (rb, lb, wb) := drive fuel f2 st.w
+        ({ st with w := next rb wb }, render (l1 ++ l2 ++ lb) s!"dropped,{str rb}")
+      | _ => (st, "bad-op")
+    | _, _, _ => (st, "bad-op")
   | ["calld", k, req] =>
     match st.svc, num k, num req with
     | some s, some _, some req =>
